@@ -104,9 +104,10 @@ func newAddrPool() *addrPool {
 		{10, 0, 0, 2},    // 2: B
 		{192, 168, 0, 9}, // 3: X, outside the allow-list
 		{0, 0, 0, 0, 0, 0, 0, 0, 0, 0, 0xff, 0xff, 10, 0, 0, 1}, // 4: A as IPv4-mapped IPv6 (different bytes)
-		{10, 0, 1},       // 5: malformed length
+		{10, 0, 1}, // 5: malformed length
 		{0x20, 0x01, 0x0d, 0xb8, 0, 0, 0, 0, 0, 0, 0, 0, 0, 0, 0, 1}, // 6: IPv6 outside
 		{0xfd, 0, 0, 0, 0, 0, 0, 0, 0, 0, 0, 0, 0, 0, 0, 7},          // 7: IPv6 inside fd00::/8
+		nil, // 8: absent address (nil, as decoded from a message without Addr)
 	}}
 }
 func (p *addrPool) addrCode(a []byte) int {
@@ -319,12 +320,12 @@ type mop struct {
 }
 
 type mentry struct {
-	name         string
-	addr, port   int
-	md, vsn      int
-	inc          uint32
-	st           ml.NodeStateType
-	veto         bool
+	name       string
+	addr, port int
+	md, vsn    int
+	inc        uint32
+	st         ml.NodeStateType
+	veto       bool
 }
 
 func b2i(b bool) int {
@@ -457,7 +458,7 @@ func randomOp(r *rng, c mcfg, selfBias int, ntimers *int) mop {
 	if r.chance(1, 4) {
 		from = name // self-signed (leave)
 	}
-	addr := []int{1, 1, 1, 2, 2, 3, 4, 5, 6, 7}[r.intn(10)]
+	addr := []int{1, 1, 1, 2, 2, 3, 4, 5, 6, 7, 8}[r.intn(11)]
 	if name == "S" && r.chance(3, 4) {
 		addr = 0
 	}
